@@ -138,6 +138,23 @@ def run(chk, prog):
         msgs = [y["value"] for y in A.walk(enc[0]) if y["k"] == "StringLiteral"] if enc else []
         chk.check(ok and "Aborted." in msgs and "Finished." in msgs, "R2", A.loc(mainf, x), "the only other reader selects the Aborted./Finished. message after the loop (%s)" % msgs,
                   "flag:other-reader")
+    # "report that it was aborted": every place after the loop that can print "Aborted." is selected by the flag itself (not by a
+    # quantity that merely correlates with it, such as the step counter: an interrupt during the last step leaves the counter at its end)
+    ab_lits = [y for y in A.walk(mainf["body"]) if y.get("k") == "StringLiteral" and "Aborted" in (y.get("value") or "") and y["line"] > loop["eline"]]
+    chk.check(bool(ab_lits), "R2", A.loc(mainf, loop), "main reports an aborted run after the loop (%d message sites)" % len(ab_lits), "flag:aborted-message:none")
+    for y in ab_lits:
+        enc = A.enclosing(idx, y, {"IfStmt", "ConditionalOperator"})
+        sel = [e_ for e_ in enc if e_["line"] > loop["eline"]]
+        byflag = False
+        for e_ in sel[:1]:
+            cn = A.strip(e_["cond"])
+            neg = False
+            while cn.get("k") == "UnaryOperator" and cn.get("op") == "!":
+                cn, neg = A.strip(cn["c"][0]), not neg
+            in_then = y["id"] in {z["id"] for z in A.walk(e_.get("then") or {})}
+            byflag = is_abort_ref(cn) and (in_then != neg)
+        chk.check(byflag, "R2", A.loc(mainf, y), "\"Aborted.\" is reported exactly when the abort flag is set (innermost selecting condition: %s)"
+                  % (A.show(sel[0]["cond"])[:80] if sel else "none"), "flag:aborted-message:not-selected-by-flag")
     # ---- R3 -------------------------------------------------------------------------------------
     body = loop["body"]
     bad = []
